@@ -85,6 +85,11 @@ def cases():
     add([M("square", [1], [2])], 2, {1: sig([0], scal=True)}, [1], [2], dx=(1, 2), df=[V([3])])
     add([M("cscale", [1], [2])], 2, {1: sig([2 + 1j], scal=True)}, [1], [2], df=[V([1 - 1j])], cplx=[True])
     add([M("absq", [1], [2])], 2, {1: sig([1 - 2j], scal=True)}, [1], [2], dx=(1, 2), df=[V([2])], cplx=[True])
+    # six-entry inputs: realised as vectors and as 2 x 3 arrays in column-major memory (the entry <-> sensitivity pairing must follow the index)
+    a6, b6, w6 = sig([1, 2, 0, 3, -1, 4]), sig([3, -1, 2, 5, 1, -2]), V([2, -1, 3, 1, 4, -3])
+    add([M("mul", [1, 2], [3])], 3, {1: a6, 2: b6}, [1, 2], [3], df=[w6])
+    add([M("square", [1], [2])], 2, {1: b6}, [1], [2], dx=(1, 4), df=[w6])
+    add([M("mul", [1, 2], [3])], 3, {1: sig([1 + 2j, -1j, 2, 3, 1 - 1j, -2]), 2: b6}, [1, 2], [3], df=[V([1, 1j, 2 - 1j, 3, -1, 2j])], cplx=[True, True])
     # networks: sub-network selection by fromsig / tosig
     chain = [M("wrong", [1], [3]), M("mul", [3, 2], [4]), M("lin", [4, 3], [5]), M("sum", [5], [6])]
     for frm, to, df in (([1], [6], [V([2])]), ([3], [5], [w3]), ([2], [4], [one3]), ([3, 2], [6], [V([1])]), ([4], [5, 6], [w3, V([3])]), ([1, 2], [4, 5], [w3, one3])):
@@ -227,6 +232,8 @@ def run_case(c, expected, real="plain"):
             parents[s] = (pym.Signal("p%d" % s, big), big.copy())
             # a basic slice is a view of the parent's array; an index array hands out copies and writes back through the setter
             sigs[s] = parents[s][0][1:1 + st.size] if real == "slice" else parents[s][0][np.arange(1, 1 + st.size)]
+        elif real == "fortran2d":
+            sigs[s].state = np.asfortranarray(st.reshape(2, 3))
         else:
             sigs[s].state = st
     mods = [_CL[m["k"]]([sigs[i] for i in m["i"]], [sigs[o] for o in m["o"]]) for m in c["prog"]]
@@ -248,7 +255,8 @@ def run_case(c, expected, real="plain"):
             dfs.append(np.array(w).real.reshape(n, n))
         else:
             arr = np.array(w)
-            dfs.append(arr if np.any(arr.imag != 0) else arr.real.copy())
+            arr = arr if np.any(arr.imag != 0) else arr.real.copy()
+            dfs.append(np.asfortranarray(arr.reshape(2, 3)) if real == "fortran2d" else arr)
     log = []
 
     def rec(x0, dx, an, fd):
@@ -267,7 +275,20 @@ def run_case(c, expected, real="plain"):
     if len(log) != len(exp):
         return "callbacks/count", "test_fn was called %d times, the specification reports %d entries" % (len(log), len(exp))
     # the specification orders reports per input, entry, direction, output - as the code does
-    for i, (got, e) in enumerate(zip(log, exp)):
+    if real == "fortran2d":
+        # the order in which the entries of a multi-dimensional input are visited is not fixed by the property: compare per input
+        # (the reports of one input are consecutive) the reports as a multiset, keyed by the specification's values
+        keyf = lambda an, fd: (round(an * 4096), round(fd * 4096))
+        order, pos = [], 0
+        for qv in sorted(set(e["q"] for e in exp)):
+            idx = [i for i, e in enumerate(exp) if e["q"] == qv]
+            blk_got = sorted(log[idx[0]:idx[-1] + 1], key=lambda g: keyf(g[2], g[3]))
+            blk_exp = sorted((exp[i] for i in idx), key=lambda e: keyf(e["an"][0] / e["an"][1], e["fd"][0] / e["fd"][1]))
+            order += list(zip(blk_got, blk_exp))
+        pairs = order
+    else:
+        pairs = list(zip(log, exp))
+    for i, (got, e) in enumerate(pairs):
         an, fd = e["an"][0] / e["an"][1], e["fd"][0] / e["fd"][1]
         if abs(got[2] - an) > 1e-9 * max(1.0, abs(an)):
             return "analytical", "report %d (input %d entry %d output %d%s): analytical %r, specification %r" % (i, e["q"], e["e"], e["o"], " imag" if e["im"] else "", got[2], an)
@@ -281,7 +302,7 @@ def run_case(c, expected, real="plain"):
         if np.ndim(st) == 0:
             if complex(st) != fin[0]:
                 return "restore", "input %d is %r after the call, it was %r" % (q, st, fin[0])
-        elif not np.array_equal(np.asarray(st, dtype=complex), fin):
+        elif not np.array_equal(np.asarray(st, dtype=complex).reshape(-1), fin):
             return "restore", "input %d is %s after the call, it was %s" % (q, np.asarray(st).tolist(), fin.tolist())
     for s, st0 in init_states.items():
         st = sigs[s].state
@@ -313,7 +334,8 @@ def run(chk, replay=None):
     if len(exp) != len(cs):
         raise tlc.TLCError("FiniteDiff emitted %d of %d cases" % (len(exp), len(cs)))
     for c in cs:
-        for real in ((REALISATIONS + (("tiny",) if homogeneous(c) else ())) if replay is None else [replay.get("signals", "plain")]):
+        six = all(len(d["v"]) == 6 for d in c["init"].values())
+        for real in ((REALISATIONS + (("tiny",) if homogeneous(c) else ()) + (("fortran2d",) if six else ())) if replay is None else [replay.get("signals", "plain")]):
             res = run_case(c, exp[c["id"]], real)
             key = {"id": c["id"], "prog": [[m["k"], m["i"], m["o"]] for m in c["prog"]], "from": c["from"], "to": c["to"], "dx": c["dx"],
                    "rel": c["rel"], "keepzero": c["keepzero"], "signals": real}
